@@ -245,3 +245,50 @@ Theorem chunk_updates_keep_the_value :
     forall init, fold_left merge_px vals init = Some v.
 Proof. exact @merge_singleton. Qed.
 Print Assumptions chunk_updates_keep_the_value.
+
+(* ------------------------------------------------------------------ *)
+(* Several images tiled into one TOAST pyramid (FitsTiler._tile_toast; Model/MultiToast.v): the
+   cascade's filter is the union of the images' filters, so it accepts every tile some image's
+   filter accepts, and -- the image filters being monotone towards the root -- every ancestor of
+   a tile some image wrote into: the filtered cascade leaves no holes above any image.  The
+   calls themselves (one sampling call per image with its own filter at one common depth, then
+   one cascade, the caller's worker count in each) are compared with [script] by the
+   correspondence run (harness/corr_C07.py, part M). *)
+From Toasty Require Import Model.MultiToast Proofs.MultiToastP.
+
+Theorem union_filter_is_union :
+  forall (tile : Type) (fs : list (tile -> bool)) (t : tile),
+  union_filter tile fs t = true <-> exists f, In f fs /\ f t = true.
+Proof. exact union_spec. Qed.
+Print Assumptions union_filter_is_union.
+
+Theorem union_filter_leaves_no_holes :
+  forall (tile : Type) (parent : tile -> tile) (fs : list (tile -> bool)),
+  (forall f, In f fs -> forall t, f t = true -> f (parent t) = true) ->
+  forall (k : nat) (f : tile -> bool) (t : tile), In f fs -> f t = true ->
+  union_filter tile fs (Nat.iter k parent t) = true.
+Proof. exact union_ancestors. Qed.
+Print Assumptions union_filter_leaves_no_holes.
+
+Theorem multi_toast_common_depth :
+  forall (given : option Z) (levels : list (option Z)) (par : option Z),
+  length (script given levels par) = S (length levels) /\
+  last (script given levels par) (Cascade None) = Cascade par /\
+  (forall i, (i < length levels)%nat ->
+             nth i (script given levels par) (Cascade None) = ToastBase i (recorded_levels given levels) i par) /\
+  (given = None -> (1 <= recorded_levels given levels)%Z /\
+                   forall v, In (Some v) levels -> (v <= recorded_levels given levels)%Z).
+Proof.
+  intros given levels par. destruct (script_shape given levels par) as (A & B & C).
+  repeat split; try assumption.
+  - subst given. apply auto_start_ge_1.
+  - subst given. apply auto_start_covers.
+Qed.
+Print Assumptions multi_toast_common_depth.
+
+Example multi_toast_script_runs :
+  script None [Some 2%Z; Some 4%Z; None; Some 3%Z] (Some 2%Z)
+  = [ToastBase 0%nat 4%Z 0%nat (Some 2%Z); ToastBase 1%nat 4%Z 1%nat (Some 2%Z); ToastBase 2%nat 4%Z 2%nat (Some 2%Z);
+     ToastBase 3%nat 4%Z 3%nat (Some 2%Z); Cascade (Some 2%Z)] /\
+  union_filter nat [Nat.eqb 3%nat; Nat.eqb 5%nat] 5%nat = true /\ union_filter nat [Nat.eqb 3%nat; Nat.eqb 5%nat] 4%nat = false.
+Proof. vm_compute. repeat split. Qed.
